@@ -366,6 +366,7 @@ def _run(ctx, rng, wd):
         kind = case.get("kind", "file")
         ctx.evaluated()
         ctx.dist("kind", kind)
+        n0 = len(ctx.fails)
         if kind == "history":
             if res["phase_rc"] != 0:
                 ctx.observe("whatshap phase failed on a generated scenario: " + res["phase_err"][-120:])
@@ -531,3 +532,5 @@ def _run(ctx, rng, wd):
                          case, key="unphase-phase-neq-unphase")
         if len(ctx.samples) < 3 and kind == "file" and res["runs"] and res["runs"][0]["rc"] == 0 and len(res["runs"][0]["recs"]) <= 4:
             ctx.sample({"input_data_lines": data_lines(res["runs"][0]["in_text"]), "output_data_lines": data_lines(res["runs"][0]["out"])})
+        for key in sorted({k for _, _, k in ctx.fails[n0:]}):
+            ctx.dist("finding", f"{kind}:{key}")          # cases per kind of violation
